@@ -1,11 +1,15 @@
 // C21 — cryptobyte builders and readers are exact inverses.
 //
 // Engine E2 (programs): every write program (ordered forest of Builder ops,
-// <= N nodes) over a 94-letter op alphabet is executed on the real Builder;
-// the matching read program is derived mechanically and executed on the real
-// String with every reader variant. Reference encodings come from the Go
-// standard library encoding/asn1; optional-reader expectations are derived
-// from the reference bytes of the rest of the level.
+// <= N nodes) over the core op alphabet, every program of <= 2 ops over the
+// core + extended alphabet and every 3-op program around an extended letter is
+// executed on the real Builder; the built bytes are compared with a reference
+// encoding, the matching read program is derived mechanically and executed on
+// the real String with every reader variant. Reference encodings come from the
+// Go standard library encoding/asn1 and from an ordered reference model of the
+// Builder's documented error / panic / Unwrite behaviour (run.go: simulate);
+// optional-reader expectations are derived from the reference bytes of the
+// rest of the level.
 package main
 
 import (
@@ -89,14 +93,27 @@ func main() {
 
 		maxNodes := ev.Pick(c, 3, 4)
 		fixedUpTo := 3 // the NewFixedBuilder family runs on all programs up to this size
-		c.Rule(fmt.Sprintf("all write programs = ordered forests of <= %d Builder ops (nesting = child programs of the %d block ops, depth unbounded within the node bound) over a %d-letter alphabet "+
-			"(fixed-width ints, AddBytes, 4 length-prefixed blocks, ASN.1 INTEGER/ENUM/tagged INTEGER/BOOLEAN/NULL/OCTET STRING/BIT STRING/OID/GeneralizedTime with boundary values, AddASN1 with 4 tags + a high tag, "+
-			"optional family x {present,absent} x defaults); each read back with %d reader variants; each program of <= %d nodes also built with NewFixedBuilder at capacity exact, exact with a 2-byte initial buffer, and short capacities "+
+		allContainers := append(append([]int{}, containers...), extContainers...)
+		full := append(append([]int{}, coreAll...), extAll...)
+		ctxAll := append(append([]int{}, ctxLeaves...), allContainers...) // context: a few leaves + every block op (also as an empty block)
+		ctxCore := append(append([]int{}, ctxLeaves...), containers...)
+		c.Rule(fmt.Sprintf("write programs = ordered forests of Builder ops (nesting = child programs of the block ops, depth unbounded within the node bound). "+
+			"(1) all forests of <= %d ops over the %d core letters (%d block ops): fixed-width ints {0,1,max}, AddBytes, 4 length-prefixed blocks, ASN.1 INTEGER/ENUM/tagged INTEGER/BOOLEAN/NULL/OCTET STRING/BIT STRING/OID/GeneralizedTime with boundary values "+
+			"(OCTET/BIT STRING lengths on both sides of 0x7f/0x80, 0xff/0x100, 0xffff/0x10000), AddASN1 with 4 tags + a high tag, optional family x {present,absent} x defaults; "+
+			"(2) all forests of <= 2 ops over core + %d extended letters (%d extended block ops), and all 3-op forests holding at least one extended letter with every other op over the context letters (%d leaves + all %d block ops). "+
+			"Extended letters: AddUint16/24/32 and ASN.1 INTEGERs with pairwise different octets (0x0102, 0x010203, 0x01020304, +-0x0102030405060708); AddBytes of 254,255,256,65534,65535,65536 octets (1- and 2-octet length-prefix limits: the first length that does not fit must be a Builder error); "+
+			"AddASN1 with tag number 30 (0x1e, 0x7e, 0xbe), refused 0x1f / 0xff, optional readers with tag 0x9e; ReadOptionalASN1Integer into *int64 / *uint64; GeneralizedTime and UTCTime (ReadASN1UTCTime) incl. a -0330 zone; "+
+			"Builder.Unwrite (after AddBytes in the same Builder incl. pending length-prefixed children, and alone: on preceding ops' bytes or with nothing to unwrite = documented panic), SetError, AddValue (writing / failing MarshalingValue), "+
+			"a continuation panicking with BuildError (becomes the Builder's error) or with another value (re-raised unchanged); "+
+			"(3) thorough only: directed programs with AddBytes of 2^24-1 / 2^24 octets (4-octet DER length, 3-octet length-prefix limit). "+
+			"Every program: built bytes == reference encoding, Bytes/BytesOrPanic agree, documented errors/panics, then read back with %d reader variants (values, Zone offsets, exact remainder after every op); programs of <= %d ops also built with NewFixedBuilder at capacity exact, exact with a 2-byte initial buffer, and short capacities "+
 			"(all c < needed when needed <= 8, else {0,1,needed-2,needed-1}); a case is non-trivial/distinct when it is a distinct program that builds without a documented error and is read back",
-			maxNodes, len(containers), len(alphabet), nVariants, fixedUpTo))
+			maxNodes, len(coreAll), len(containers), len(extAll), len(extContainers), len(ctxLeaves), len(allContainers), nVariants, fixedUpTo))
 		c.Assume("reference encodings of all ASN.1 leaves come from Go's encoding/asn1; DER headers of blocks from a hand-written X.690 encoder cross-checked against encoding/asn1 at start-up",
-			"GeneralizedTime values are compared as instants (time.Time.Equal)",
+			"the documented encodings (AddUintN: big-endian; length prefixes: big-endian byte count; AddASN1*: DER) are part of 'exact inverse': the built bytes are compared with the reference, not only read back",
+			"time values are compared as instants (time.Time.Equal) and by their Zone() offset, which AddASN1GeneralizedTime writes",
 			"an absent optional element followed by bytes that begin with the reader's tag is 'present' for the reader; when those bytes are not a well-formed element of the reader's type no verdict is given",
+			"Unwrite reaching into a completed length-prefixed block of the same Builder: statement and documentation are silent, no verdict",
 			"int is 64 bits (OID arcs, ReadASN1Enum)")
 
 		W := c.Workers()
@@ -111,89 +128,160 @@ func main() {
 		for i := range ws {
 			ws[i] = &wstate{h: ev.Hist{}, best: map[string]*witness{}}
 		}
-		var orderBase int64
-		perSize := map[string]any{}
-		const chunk = 4096
-		complete := true
-		for n := 1; n <= maxNodes && complete; n++ {
-			var sizeTotal int64
-			for si, sh := range genShapes(n) {
-				rad := sh.radices(all)
-				total := int64(1)
-				for _, rr := range rad {
-					total *= int64(len(rr))
-				}
-				sizeTotal += total
-				nChunks := int((total + chunk - 1) / chunk)
-				fixedLevel := 2
-				if n > fixedUpTo {
-					fixedLevel = 0
-				}
-				sh, base := sh, orderBase
-				done := c.Parallel(nChunks, func(w, ci int) {
-					st := ws[w]
-					r := &runner{sh: sh, lab: make([]int, sh.n), h: st.h, fixedLevel: fixedLevel}
-					digits := make([]int, sh.n)
-					lo := int64(ci) * chunk
-					hi := lo + chunk
-					if hi > total {
-						hi = total
+
+		// the enumeration jobs: a shape with the letters allowed at each node
+		type job struct {
+			group      string
+			n, si      int
+			sh         *shape
+			rad        [][]int
+			fixedLevel int
+		}
+		var jobs []job
+		fixedFor := func(n int) int {
+			if n > fixedUpTo {
+				return 0
+			}
+			return 2
+		}
+		coreJobs := func(from, to int) {
+			for n := from; n <= to; n++ {
+				for si, sh := range genShapes(n) {
+					if n <= 2 {
+						jobs = append(jobs, job{"programs_with_%d_nodes", n, si, sh, sh.radices(full, allContainers), fixedFor(n)})
+					} else {
+						jobs = append(jobs, job{"programs_with_%d_nodes", n, si, sh, sh.radices(coreAll, containers), fixedFor(n)})
 					}
-					// mixed radix, last node fastest
-					x := lo
-					for d := sh.n - 1; d >= 0; d-- {
-						digits[d] = int(x % int64(len(rad[d])))
-						x /= int64(len(rad[d]))
-					}
-					for idx := lo; idx < hi; idx++ {
-						for d := 0; d < sh.n; d++ {
-							r.lab[d] = rad[d][digits[d]]
-						}
-						fails := r.runProgram()
-						st.programs++
-						for _, f := range fails {
-							st.vio++
-							cur, ok := st.best[f.sig]
-							if ok {
-								cur.Occurrences++
-								// cheap pre-test: only a smaller program can replace the witness
-								if r.sh.n*1000000 > cur.size {
-									continue
-								}
-							}
-							wt := mkWitness(r, f, base+idx)
-							if !ok {
-								st.best[f.sig] = &wt
-							} else if better(&wt, cur) {
-								wt.Occurrences = cur.Occurrences
-								*cur = wt
-							}
-						}
-						if len(fails) == 0 && si == 0 && idx%977 == 13 && len(st.samples) < 2 && n >= 2 {
-							ref, ec, _ := r.reference()
-							st.samples = append(st.samples, map[string]any{"program": render(sh, r.lab), "reference_bytes": hexShort(ref), "documented_error": ec})
-						}
-						for d := sh.n - 1; d >= 0; d-- {
-							digits[d]++
-							if digits[d] < len(rad[d]) {
-								break
-							}
-							digits[d] = 0
-						}
-					}
-					st.buildOps += r.nBuildOps
-					st.reads += r.nReads
-					st.oracle += r.nOracle
-					st.traces += r.nTraces
-				})
-				orderBase += total
-				if !done {
-					complete = false
-					c.Incomplete(fmt.Sprintf("budget hit in programs of %d nodes, shape %d %v; all programs of < %d nodes were covered", n, si, sh.par, n))
-					break
 				}
 			}
-			perSize[fmt.Sprintf("programs_with_%d_nodes", n)] = sizeTotal
+		}
+		coreJobs(1, min(3, maxNodes))
+		// 3-op forests around an extended letter: node p holds it, the nodes before p range over the context
+		// letters and core block ops, the nodes after p over the context letters and all block ops
+		for si, sh := range genShapes(3) {
+			for p := 0; p < 3; p++ {
+				rad := make([][]int, 3)
+				for q := 0; q < 3; q++ {
+					switch {
+					case q == p && sh.internal[q]:
+						rad[q] = extContainers
+					case q == p:
+						rad[q] = extAll
+					case q < p && sh.internal[q]:
+						rad[q] = containers
+					case q < p:
+						rad[q] = ctxCore
+					case sh.internal[q]:
+						rad[q] = allContainers
+					default:
+						rad[q] = ctxAll
+					}
+				}
+				jobs = append(jobs, job{"extended_programs_with_%d_nodes", 3, si, sh, rad, 2})
+			}
+		}
+		if !c.Quick() {
+			lp := func(names ...string) []int {
+				var out []int
+				for _, n := range names {
+					for k, a := range alphabet {
+						if a.name == n {
+							out = append(out, k)
+						}
+					}
+				}
+				if len(out) != len(names) {
+					c.Broken("directed programs: unknown letter")
+				}
+				return out
+			}
+			blocks := lp("AddUint16LengthPrefixed", "AddUint24LengthPrefixed", "AddUint32LengthPrefixed", "AddASN1(0x30)")
+			one := lp("AddUint8(1)")
+			jobs = append(jobs,
+				job{"huge_programs_with_%d_nodes", 1, 0, mkShape([]int{-1}), [][]int{hugeLeaves}, 1},
+				job{"huge_programs_with_%d_nodes", 2, 0, mkShape([]int{-1, 0}), [][]int{blocks, hugeLeaves}, 1},
+				job{"huge_programs_with_%d_nodes", 3, 0, mkShape([]int{-1, 0, 0}), [][]int{blocks, one, hugeLeaves}, 1},
+				job{"huge_programs_with_%d_nodes", 3, 1, mkShape([]int{-1, 0, 1}), [][]int{blocks, blocks, hugeLeaves}, 1})
+		}
+
+		coreJobs(4, maxNodes) // thorough: the 4-op forests come last, so that a budget stop leaves the extended and directed programs covered
+
+		var orderBase int64
+		perSize := map[string]int64{}
+		const chunk = 4096
+		for _, jb := range jobs {
+			rad := jb.rad
+			total := int64(1)
+			for _, rr := range rad {
+				total *= int64(len(rr))
+			}
+			perSize[fmt.Sprintf(jb.group, jb.n)] += total
+			if total == 0 {
+				continue
+			}
+			nChunks := int((total + chunk - 1) / chunk)
+			sh, base, fixedLevel, n, si := jb.sh, orderBase, jb.fixedLevel, jb.n, jb.si
+			done := c.Parallel(nChunks, func(w, ci int) {
+				st := ws[w]
+				r := &runner{sh: sh, lab: make([]int, sh.n), h: st.h, fixedLevel: fixedLevel}
+				digits := make([]int, sh.n)
+				lo := int64(ci) * chunk
+				hi := lo + chunk
+				if hi > total {
+					hi = total
+				}
+				// mixed radix, last node fastest
+				x := lo
+				for d := sh.n - 1; d >= 0; d-- {
+					digits[d] = int(x % int64(len(rad[d])))
+					x /= int64(len(rad[d]))
+				}
+				for idx := lo; idx < hi; idx++ {
+					for d := 0; d < sh.n; d++ {
+						r.lab[d] = rad[d][digits[d]]
+					}
+					fails := r.runProgram()
+					st.programs++
+					for _, f := range fails {
+						st.vio++
+						cur, ok := st.best[f.sig]
+						if ok {
+							cur.Occurrences++
+							// cheap pre-test: only a smaller program can replace the witness
+							if r.sh.n*1000000 > cur.size {
+								continue
+							}
+						}
+						wt := mkWitness(r, f, base+idx)
+						if !ok {
+							st.best[f.sig] = &wt
+						} else if better(&wt, cur) {
+							wt.Occurrences = cur.Occurrences
+							*cur = wt
+						}
+					}
+					if len(fails) == 0 && si == 0 && idx%977 == 13 && len(st.samples) < 2 && n >= 2 {
+						ref, ec, _ := r.reference()
+						st.samples = append(st.samples, map[string]any{"program": render(sh, r.lab), "reference_bytes": hexShort(ref), "documented_error": ec})
+					}
+					for d := sh.n - 1; d >= 0; d-- {
+						digits[d]++
+						if digits[d] < len(rad[d]) {
+							break
+						}
+						digits[d] = 0
+					}
+				}
+				st.buildOps += r.nBuildOps
+				st.reads += r.nReads
+				st.oracle += r.nOracle
+				st.traces += r.nTraces
+			})
+			orderBase += total
+			if !done {
+				c.Incomplete(fmt.Sprintf("budget hit in %s, shape %d %v; the jobs before it were covered completely", fmt.Sprintf(jb.group, jb.n), si, sh.par))
+				break
+			}
 		}
 
 		// merge
@@ -248,7 +336,9 @@ func main() {
 		c.Traces.Add(traces)
 		c.Evaluations.Add(oracle)
 		c.Set("alphabet_size", len(alphabet))
-		c.Set("block_ops", len(containers))
+		c.Set("core_letters", len(coreAll))
+		c.Set("extended_letters", len(extAll))
+		c.Set("block_ops", len(allContainers))
 		c.Set("max_nodes", maxNodes)
 		c.Set("programs_by_size", perSize)
 		c.Set("builder_ops_executed", buildOps)
